@@ -294,7 +294,7 @@ fn random_sub() -> Sub {
     sub(
         "F/random-large",
         crate::runner::no_fixed,
-        (3000, 100_000),
+        (40_000, 500_000),
         |_: &RunCtx, _: Option<&()>| {
             prop_oneof![
                 (any::<usize>(), 0usize..4).prop_map(|(bits, cap)| Ctor::Params { bits, cap, ext: 1 }),
